@@ -39,6 +39,12 @@ BLOCK_KINDS = (("groups", "group"), ("data_arrays", "data_array"), ("data_frames
                ("multi_tags", "multi_tag"), ("sources", "source"))
 
 
+LINK_LISTS = {"group": ("data_arrays", "data_frames", "tags", "multi_tags", "sources"), "data_array": ("sources",),
+              "tag": ("references", "sources"), "multi_tag": ("references", "sources")}
+ROLE_LINKS = {"block": ("metadata",), "group": ("metadata",), "data_array": ("metadata",), "tag": ("metadata",),
+              "multi_tag": ("metadata", "positions", "extents"), "source": ("metadata",), "section": ("link",)}
+
+
 def frames(impl):
     """data frames reachable through the public API (storegen.inventory does not list them)"""
     out = []
@@ -56,11 +62,91 @@ class GenX(Gen):
         Gen.__init__(self, rng, impl, profile)
         self.share = share
 
+    def via_links(self, ents):
+        """paths that lead to an owned entity through a link list or a single link (role): [(via_path, Ent)]"""
+        impl = self.impl
+        objs, byid = [], {}
+        for e in ents:
+            if e.kind in ("feature", "property"):
+                continue
+            try:
+                o = impl.nav(e.path)
+            except Exception:
+                continue
+            objs.append((e, o))
+            byid[o.id] = e
+        out = []
+        for e, o in objs:
+            for cname in LINK_LISTS.get(e.kind, ()):
+                try:
+                    for i, t in enumerate(getattr(o, cname)):
+                        if t.id in byid:
+                            out.append((e.path + [cname, i], byid[t.id]))
+                except Exception:
+                    pass
+            for role in ROLE_LINKS.get(e.kind, ()):
+                try:
+                    t = getattr(o, role)
+                except Exception:
+                    t = None
+                if t is not None and t.id in byid:
+                    out.append((e.path + [role], byid[t.id]))
+            if e.kind in ("tag", "multi_tag"):
+                try:
+                    for i, ft in enumerate(o.features):
+                        t = ft.data
+                        if t is not None and t.id in byid:
+                            out.append((e.path + ["features", i, "data"], byid[t.id]))
+                except Exception:
+                    pass
+        return out
+
+    def provenance(self, ents):
+        """the entity presented by a handle that was obtained through a link: membership / lookup / deletion in the
+        owning container, in a container of the same kind that does not hold it, in the link lists"""
+        rng = self.rng
+        vias = self.via_links(ents)
+        if not vias:
+            return False
+        via, te = rng.choice(vias)
+        owner_path, cname = te.path[:-2], te.path[-2]
+        self.do(["has", owner_path, cname, {"o": via}])
+        self.do(["get", owner_path, cname, {"id": via}])
+        self.do(["has", owner_path, cname, {"id": via}])
+        if te.name is not None:
+            self.do(["get", owner_path, cname, {"nameof": via}])
+            self.do(["has", owner_path, cname, {"nameof": via}])
+        # a container of the same kind of entity that does not hold it (another block, another parent)
+        others = [e for e in ents if e.kind == te.kind and e.path[:-2] != owner_path]
+        if others:
+            o = rng.choice(others)
+            self.do(["has", o.path[:-2], o.path[-2], {"o": via}])
+        # the link lists that may hold it
+        holders = [(e, cn) for e in ents for cn in LINK_LISTS.get(e.kind, ()) if storegen.ITEM_KIND.get(cn) == te.kind
+                   or (cn == "data_frames" and te.kind == "data_frame")]
+        if holders:
+            e, cn = rng.choice(holders)
+            self.do(["has", e.path, cn, {"o": via}])
+            q = rng.random()
+            if q < 0.35:
+                self.do(["append", e.path, cn, {"o": via}])
+                self.do(["list", e.path, cn])
+            elif q < 0.55:
+                self.do(["del", e.path, cn, {"o": via}])
+                self.do(["list", e.path, cn])
+        if rng.random() < 0.15:
+            self.do(["del", owner_path, cname, {"o": via}])          # deletion by object, the handle came over a link
+            self.do(["list", owner_path, cname])
+            self.do(["list", via[:-2], via[-2]] if isinstance(via[-1], int) else ["role", via[:-1], via[-1]])
+        return True
+
     def step(self):
         if self.rng.random() >= self.share or not len(self.impl.f.blocks):
             return Gen.step(self)
         rng = self.rng
         ents = inventory(self.impl) + frames(self.impl)
+        if rng.random() < 0.3 and self.provenance(ents):
+            return
         blk = self.pick(ents, "block")
         taken = {cn: self.siblings(ents, blk.path, cn) for cn, _ in BLOCK_KINDS}
         r = rng.random()
